@@ -108,6 +108,7 @@ class Connection(protocol.Protocol, policies.TimeoutMixin):
         self._consumer_deferred = None
         self._inbound_records = deque()
         self._waiting_reads = deque()
+        self._gone = False  # closed by us, or lost
 
     def connectionMade(self):
         self.setTimeout(TIMEOUT)  # does timeoutConnection() when it expires
@@ -261,7 +262,16 @@ class Connection(protocol.Protocol, policies.TimeoutMixin):
         d = defer.Deferred()
         self._waiting_reads.append(d)
         self._deliverRecords()
+        if self._gone:
+            # nothing more will arrive: records that came in before the end
+            # have been handed out above, any further read fails at once
+            self._fail_waiting_reads()
         return d
+
+    def _fail_waiting_reads(self):
+        while self._waiting_reads:
+            d = self._waiting_reads.popleft()
+            d.errback(error.ConnectionClosed())
 
     def _deliverRecords(self):
         while self._inbound_records and self._waiting_reads:
@@ -270,10 +280,9 @@ class Connection(protocol.Protocol, policies.TimeoutMixin):
             d.callback(r)
 
     def close(self):
+        self._gone = True
         self.transport.loseConnection()
-        while self._waiting_reads:
-            d = self._waiting_reads.popleft()
-            d.errback(error.ConnectionClosed())
+        self._fail_waiting_reads()
 
     def timeoutConnection(self):
         self._error = BadHandshake("timeout")
@@ -281,9 +290,8 @@ class Connection(protocol.Protocol, policies.TimeoutMixin):
 
     def connectionLost(self, reason=None):
         self.setTimeout(None)
-        while self._waiting_reads:
-            d = self._waiting_reads.popleft()
-            d.errback(error.ConnectionClosed())
+        self._gone = True
+        self._fail_waiting_reads()
 
         d, self._negotiation_d = self._negotiation_d, None
         # the Deferred is only relevant until negotiation finishes, so skip
@@ -373,6 +381,10 @@ class Connection(protocol.Protocol, policies.TimeoutMixin):
         while self._consumer and self._inbound_records:
             r = self._inbound_records.popleft()
             self._writeToConsumer(r)
+        if self._gone and d is not None and not d.called:
+            # the connection had ended before the consumer was attached:
+            # what was queued has been written, no more will come
+            d.errback(error.ConnectionClosed())
         return d
 
     def _writeToConsumer(self, record):
